@@ -14,7 +14,7 @@
     theorem of C01 (dual feasibility - the signs and PSD-ness of the multipliers - is a separate,
     explicit hypothesis of the weak-duality theorem).  The harness measures it on real SCS output. *)
 From Coq Require Import List QArith Reals Qreals.
-From PV Require Import Model.Dict Model.Terms Model.Sent Model.Cvxpy Spec.GramSem.
+From PV Require Import Model.Dict Model.Terms Model.Sent Model.Cvxpy Model.Cert Spec.GramSem.
 Import ListNotations.
 Local Open Scope R_scope.
 
@@ -92,18 +92,37 @@ Record kkt_dual (obj : edict) (rows : list solver_row) (duals : list dval) (tau 
 
 (** ** What the exposed multipliers are claimed to certify *)
 
-(** sum_c lambda_c * e_c(G,F) - sum_k <S_k, E_k(G,F)> over the exposed (constraint, eval_dual()) pairs *)
-Fixpoint multiplier_sum (G : nat -> nat -> R) (F : nat -> R) (a : list (item * dval)) : R :=
+(** sum_c lambda_c * e_c(G,F) - sum_k sum_ij u_kij * e_kij(G,F) over what the sent objects show: eval_dual() of a
+    scalar constraint, and for an LMI the multipliers u_k of its entry correspondences
+    (entries_dual_variable_value; eval_dual() only when that attribute is None - [Model.Cert.lmi_multiplier]).
+    When the matrix of expressions takes a symmetric value E_k - in particular at every feasible point - and
+    S_k = sym(u_k) (stationarity in M_k), the LMI part is <S_k, E_k>. *)
+Fixpoint multiplier_sum (G : nat -> nat -> R) (F : nat -> R) (a : list expo) : R :=
   match a with
   | [] => 0
-  | (SC e _, VS l) :: r => Q2R l * evalGF G F e + multiplier_sum G F r
-  | (LMI m, VM Sd) :: r => - mdot Sd (lmi_value G F m) + multiplier_sum G F r
-  | _ :: r => multiplier_sum G F r
+  | (it, d, u) :: r =>
+      match it, d with
+      | SC e _, VS l => Q2R l * evalGF G F e
+      | LMI m, _ => match lmi_multiplier d u with Some s => - mdot s (lmi_value G F m) | None => 0 end
+      | _, _ => 0
+      end + multiplier_sum G F r
   end.
 
-(** objective - tau = sum multiplier x constraint - <residual,G> - sum <S_k, E_k>, for ALL symmetric G and all F *)
-Definition certificate_identity (obj : edict) (a : list (item * dval)) (res : list (list Q)) (tau : R) : Prop :=
+(** objective - tau = sum multiplier x constraint - <residual,G> - sum_k sum_ij u_kij e_kij, for ALL symmetric G and all F *)
+Definition certificate_identity (obj : edict) (a : list expo) (res : list (list Q)) (tau : R) : Prop :=
   forall G F, symG G -> evalGF G F obj - tau = multiplier_sum G F a - mdot res G.
+
+(** the same with the formula used before the repair of F-C01a (eval_dual() of the LMI instead of u) *)
+Fixpoint old_multiplier_sum (G : nat -> nat -> R) (F : nat -> R) (a : list expo) : R :=
+  match a with
+  | [] => 0
+  | (it, d, _) :: r =>
+      match it, d with
+      | SC e _, VS l => Q2R l * evalGF G F e
+      | LMI m, VM s => - mdot s (lmi_value G F m)
+      | _, _ => 0
+      end + old_multiplier_sum G F r
+  end.
 
 (** ** Positive semidefiniteness.
     Primal matrices (the Gram matrix, the value of an LMI): symmetric with a non-negative quadratic
@@ -123,13 +142,20 @@ Fixpoint rank1_at (vs : list (nat -> R)) (i j : nat) : R :=
 Definition rank1sum (Sm : list (list Q)) (n : nat) : Prop :=
   shape Sm n n /\ exists vs : list (nat -> R), forall i j, (i < n)%nat -> (j < n)%nat -> matR Sm i j = rank1_at vs i j.
 
-(** dual feasibility of the exposed multipliers *)
-Fixpoint dual_feasible (a : list (item * dval)) : Prop :=
+(** the symmetric parts of two matrices agree on indices < n *)
+Definition same_sym_part (u Sm : list (list Q)) (n : nat) : Prop :=
+  forall i j, (i < n)%nat -> (j < n)%nat -> matR u i j + matR u j i = matR Sm i j + matR Sm j i.
+
+(** dual feasibility of what the objects show: lambda >= 0 on inequalities; for an LMI the dual matrix
+    S = eval_dual() is PSD (the eigenvalue check of check_feasibility) and is the symmetric part of the entry
+    multipliers u (stationarity of the Lagrangian in M_k; derived from [stationary] in Proofs/C01Identity.v) *)
+Fixpoint dual_feasible (a : list expo) : Prop :=
   match a with
   | [] => True
-  | (SC _ Ineq, VS l) :: r => 0 <= Q2R l /\ dual_feasible r
-  | (SC _ Equ, VS _) :: r => dual_feasible r
-  | (LMI m, VM Sd) :: r => rank1sum Sd (nrows m) /\ dual_feasible r
+  | (SC _ Ineq, VS l, _) :: r => 0 <= Q2R l /\ dual_feasible r
+  | (SC _ Equ, VS _, _) :: r => dual_feasible r
+  | (LMI m, VM Sd, Some u) :: r =>
+      rank1sum Sd (nrows m) /\ shape u (nrows m) (nrows m) /\ same_sym_part u Sd (nrows m) /\ dual_feasible r
   | _ :: r => False
   end.
 
